@@ -116,6 +116,10 @@ func lcProgram(b lcBehaviour, backend string, decorate func(string) string) stri
 	sb.WriteString("ratecounter rc {}\n")
 	for _, s := range lcSubs {
 		fmt.Fprintf(&sb, "sub vcl_%s {\n  log \"%s\";\n", s, s)
+		if s == "hit" {
+			// ctx.ObjectTTL survives a restart; reset it so that only this visit's "expire" arm shortens a lifetime
+			sb.WriteString("  set obj.ttl = 0s;\n")
+		}
 		if s == "recv" {
 			// shared state that outlives a request: the n-th request served sees n
 			sb.WriteString("  if (req.restarts == 0) { set req.http.X-Count = ratelimit.ratecounter_increment(rc, \"k\", 1); log \"count:\" req.http.X-Count; }\n")
